@@ -4,7 +4,7 @@ import os
 import subprocess
 import tempfile
 
-from gcv import facts, model
+from gcv import facts, model, rules_roots
 from gcv.model import norm
 
 # reviewed exception, by type and only under the `tracing` feature
@@ -75,7 +75,11 @@ def run(chk, tier):
                 "not Freeze, no thread_local!/LocalKey use and no thread-local access in any MIR body (reviewed "
                 "exception: tracing's call-site statics under the `tracing` feature); all collector state is "
                 "constructed by Context::new (called only by Arena::new/try_new/rootless_mutate) which creates a "
-                "fresh Metrics; DynamicRoot's Drop/Clone reach nothing of the collector. A fixture crate with a "
+                "fresh Metrics; DynamicRoot's Drop/Clone reach nothing of the collector; the one cross-arena channel is "
+                "closed: fetch/try_fetch hand out a handle's pointer only when contains() said yes, and contains() is "
+                "the identity comparison of the set's own slot table (Rc) with the table the handle weakly references "
+                "(an identity the handle keeps reserved, so no later set of another arena can take it over), both "
+                "interpreted from MIR. A fixture crate with a "
                 "global counter, a static mut and a thread_local! is analysed on every run as the positive control.")
     chk.not_decided += ["interference through the global allocator or through user values shared by Rc between roots"]
     chk.extra["feature_configs"] = configs
@@ -113,6 +117,9 @@ def run(chk, tier):
             bad = [x for x in pred if x and x.startswith(("context::", "gc_ptr::", "metrics::", "arena::"))]
             chk.inst("handles-touch-only-their-slot-table", "%s[%s]" % (dn, c), not bad,
                      detail="%s reaches collector code: %s" % (dn, bad[:3]))
+        # the one cross-arena channel: a handle presented to another arena's set must be refused
+        rules_roots.fetch_rules(chk, prog, c, rule="foreign-handle-refused")
+        rules_roots.contains_identity(chk, prog, c, rule="foreign-handle-identity")
     # positive control
     ff, err = fixture_facts()
     fired = False
